@@ -1,5 +1,5 @@
 (* C13/Properties.v — the property's clauses as theorems (statements only; proofs are in Proofs*.v). *)
-From Verif Require Import Common.Base C13.Model C13.Spec C13.Proofs1 C13.Proofs2 C13.Proofs3 C13.Proofs4 C13.Instances.
+From Verif Require Import Common.Base C13.Model C13.Spec C13.Proofs1 C13.Proofs2 C13.Proofs3 C13.Proofs4 C13.Proofs5 C13.Instances.
 From Verif Require Import Generated.C13CfgSchema.
 From Coq Require Import String.
 
@@ -180,3 +180,32 @@ Theorem decode_sibling_independent_agree : forall name d m m' q s0 s,
   tv_get q (decode_model name d m) = tv_get q (decode_model name d m').
 Proof. exact decode_model_sibling_l. Qed.
 Print Assumptions decode_sibling_independent_agree.
+
+(* ---- "each written key is reflected ... in the effective configuration handed to extensions
+        (secrets redacted)" ------------------------------------------------------------------ *)
+
+(* for EVERY typed configuration: the effective configuration commutes with key-path lookup, so
+   every plain setting appears at its path with its value ... *)
+Theorem effective_config_reflects : forall v p s,
+  ev_get p v = Some (EPlain s) -> cv_get p (Some (encode v)) = Some (CScalar s).
+Proof. exact encode_reflects_plain_l. Qed.
+Print Assumptions effective_config_reflects.
+
+(* ... an opaque scalar appears as the marker, and so does every value of an opaque map *)
+Theorem effective_config_redacts_scalar : forall v p s,
+  ev_get p v = Some (EOpaque s) -> cv_get p (Some (encode v)) = Some (CScalar redacted).
+Proof. exact encode_redacts_opaque_l. Qed.
+Print Assumptions effective_config_redacts_scalar.
+
+Theorem effective_config_redacts_map_values : forall v p kvs k s,
+  ev_get p v = Some (EStrMap true kvs) -> lookup k kvs = Some s ->
+  cv_get (p ++ [k])%list (Some (encode v)) = Some (CScalar redacted).
+Proof. exact encode_redacts_map_l. Qed.
+Print Assumptions effective_config_redacts_map_values.
+
+(* whatever shape a secret sits in (scalar, map value, list element, any depth): every scalar that
+   occurs anywhere in the effective configuration is the marker or a non-secret value *)
+Theorem effective_config_no_secret : forall v s,
+  In s (cv_scalars (encode v)) -> s = redacted \/ In s (ev_plains v).
+Proof. exact encode_no_secret_l. Qed.
+Print Assumptions effective_config_no_secret.
